@@ -90,9 +90,12 @@ Proof. intros U s n G Hn. unfold locked_at. now rewrite (find_node_of_in s n (g_
 
 (* metadata rewrites: the touched nodes that are locked erase upwards; the touched nodes that are not locked have no locked
    node above them (lock closure), so nobody memoised anything that shows them *)
-Lemma meta_good : forall U s s1 g T,
+Lemma rewrite_good : forall U s s1 g T,
   Good U s ->
-  nodes s1 = map g (nodes s) -> leaves s1 = leaves s ->
+  nodes s1 = map g (nodes s) ->
+  (forall n, In n (nodes s) ->
+             (forall y, In y (nodes s) -> T (n_path y) = true -> is_prefix (n_path n) (n_path y) = false) ->
+             leaves_under s1 (n_path n) = leaves_under s (n_path n)) ->
   (forall n, keeps g n) -> (forall n, T (n_path n) = false -> g n = n) ->
   Good U (erase_touched s1 (fun x => T x && locked_at s x)).
 Proof.
@@ -146,16 +149,133 @@ Proof.
       apply (nodes_under_rewrite (nodes s) f g (n_path n) T); auto.
       intros y Hy. destruct (K y) as [Kp [_ [_ [_ [_ Ki]]]]]. now split. }
     assert (Lv : leaves_under (upd_nodes s1 (fun x => if erased s1 Tl x then with_cache x [] else x)) (n_path n) = leaves_under s (n_path n)).
-    { unfold leaves_under. cbn [leaves upd_nodes]. now rewrite Hlv. }
+    { change (leaves_under s1 (n_path n) = leaves_under s (n_path n)). now apply Hlv. }
     rewrite N, Lv. now rewrite (has_lazy_td s (n_path n) (good_all_td U s G)).
 Qed.
 
+(* metadata only: the entries are where they were *)
+Lemma meta_good : forall U s s1 g T,
+  Good U s ->
+  nodes s1 = map g (nodes s) -> leaves s1 = leaves s ->
+  (forall n, keeps g n) -> (forall n, T (n_path n) = false -> g n = n) ->
+  Good U (erase_touched s1 (fun x => T x && locked_at s x)).
+Proof.
+  intros U s s1 g T G Hn Hlv Hk Hout. apply (rewrite_good U s s1 g T); auto.
+  intros n _ _. unfold leaves_under. now rewrite Hlv.
+Qed.
+
+(* ---------------------------------------------------------------- memmap_() of a subtree (D7 repaired) *)
+(* the entries that memmap_ rebinds lie at or below p: a node that has no node of p's subtree at or below it does not see them *)
+Lemma leaves_under_rebind_below : forall (L : list (path * leaf)) (c : path * leaf -> bool) (h : path * leaf -> leaf) p x,
+  (forall ql, c ql = true -> is_prefix p (fst ql) = true) ->
+  is_prefix x p = false -> is_prefix p x = false ->
+  flat_map (fun ql => match strip x (fst ql) with Some r => [(r, snd ql)] | None => [] end)
+           (map (fun ql => if c ql then (fst ql, h ql) else ql) L)
+  = flat_map (fun ql => match strip x (fst ql) with Some r => [(r, snd ql)] | None => [] end) L.
+Proof.
+  intros L c h p x Hc H1 H2. induction L as [|ql L IH]; [reflexivity|]. cbn [map flat_map]. rewrite IH. f_equal.
+  destruct (c ql) eqn:C; [|reflexivity]. cbn [fst snd].
+  now rewrite (strip_none_incomparable x p (fst ql) H1 H2 (Hc ql C)).
+Qed.
+
+Definition mm_lock_f (p : path) (n : node) : node :=
+  if is_prefix p (n_path n) then with_lock n (n_flag n) (n_parents n) true (n_cache n) else n.
+Definition mm_meta_f (p : path) (n : node) : node :=
+  if is_prefix p (n_path n) then with_meta n {| m_bs := m_bs (n_meta n); m_names := m_names (n_meta n); m_dev := 1 |} else n.
+
+Lemma mm_f_keeps : forall p n, keeps (fun x => mm_meta_f p (mm_lock_f p x)) n.
+Proof.
+  intros p n. unfold keeps, mm_meta_f, mm_lock_f. destruct (is_prefix p (n_path n)) eqn:P; cbn; rewrite ?P; repeat split; reflexivity.
+Qed.
+
+(* Any Good state, any node p (locked or not, with locked or unlocked nodes below): the nodes of the subtree that were locked
+   erase upwards (D61) — which reaches every locked node above them, all registered — the others had no locked node above
+   them; then the lock graph is built from p as lock_() builds it (D7). *)
+Lemma memmap_good : forall U hk s p base, Good U s -> Good U (fst (step repo hk s (OMemmap p base))).
+Proof.
+  intros U hk s p base G. cbn [step]. destruct (find_node s p) as [n0|] eqn:F; [|exact G].
+  cbn [fix_memmap fix_lockgraph repo fst]. apply lock_structure.
+  destruct (find_node_in s p n0 F) as [Hn0 Pn0].
+  apply (rewrite_good U s _ (fun x => mm_meta_f p (mm_lock_f p x)) (fun x => is_prefix p x)); auto.
+  - cbn [nodes upd_nodes]. rewrite map_map. reflexivity.
+  - intros n Hn C. unfold leaves_under. cbn [leaves upd_nodes].
+    assert (H1 : is_prefix (n_path n) p = false) by (rewrite <- Pn0; apply (C n0 Hn0); rewrite Pn0; apply is_prefix_refl).
+    assert (H2 : is_prefix p (n_path n) = false).
+    { destruct (is_prefix p (n_path n)) eqn:P; [|reflexivity]. exfalso. assert (X := C n Hn P). rewrite is_prefix_refl in X. discriminate. }
+    apply (leaves_under_rebind_below (leaves s) _ _ p (n_path n)); auto.
+    intros ql Hc. apply andb_prop in Hc. destruct Hc as [Hc _]. apply andb_prop in Hc. now destruct Hc.
+  - intros n. apply mm_f_keeps.
+  - intros n P. unfold mm_meta_f, mm_lock_f. rewrite P. cbn. now rewrite P.
+Qed.
+
+(* in a state that satisfies the invariant, unlock_() of a node that lies strictly below a locked node is refused: the locked
+   node is among its registered parents *)
+Lemma unlock_below_locked_refused : forall U s q nq np,
+  Good U s -> In nq (nodes s) -> n_path nq = q -> In np (nodes s) -> flag_locked np = true -> proper_prefix (n_path np) q = true ->
+  snd (unlock_ s q) = RaisedLock.
+Proof.
+  intros U s q nq np G Hq Pq Hp Lp PP. unfold unlock_.
+  assert (Fq : find_node s q = Some nq) by (rewrite <- Pq; apply find_node_of_in; [apply (g_nodup U s G)|assumption]).
+  rewrite Fq.
+  assert (Reg : In (n_path np) (n_parents nq)) by (eapply (g_pc U s G np nq); eauto; now rewrite Pq).
+  assert (NP : is_prefix q (n_path np) = false).
+  { destruct (is_prefix q (n_path np)) eqn:E; [|reflexivity]. exfalso.
+    apply is_prefix_iff in E. destruct E as [t E]. apply proper_prefix_iff in PP. destruct PP as [a [r PP]].
+    rewrite PP in E. rewrite <- app_assoc in E. rewrite <- (app_nil_r (n_path np)) in E at 1. apply app_inv_head in E. discriminate. }
+  assert (B : unlock_blocked (propagate_unlock s q) q = true).
+  { unfold unlock_blocked. apply existsb_exists. exists (punlock_f q nq). split.
+    - unfold propagate_unlock, upd_nodes. cbn. apply in_map_iff. exists nq. split; [reflexivity|assumption].
+    - destruct (punlock_f_keeps q nq) as [A _]. rewrite A, Pq, is_prefix_refl. cbn.
+      apply existsb_exists. exists (n_path np). split.
+      + unfold punlock_f. rewrite Pq, is_prefix_refl. exact Reg.
+      + assert (FN : find_node (upd_nodes s (punlock_f q)) (n_path np) = Some (punlock_f q np)).
+        { rewrite find_node_upd; [|intros; apply punlock_f_keeps]. rewrite (find_node_of_in s np (g_nodup U s G) Hp). reflexivity. }
+        change (match find_node (upd_nodes s (punlock_f q)) (n_path np) with Some a => flag_locked a | None => false end = true).
+        rewrite FN. unfold punlock_f. rewrite NP. exact Lp. }
+  rewrite B. reflexivity.
+Qed.
+
+Lemma memmap_nodes : forall hk s p base n0, find_node s p = Some n0 ->
+  exists F, nodes (fst (step repo hk s (OMemmap p base))) = map F (nodes s)
+            /\ (forall n, n_path (F n) = n_path n)
+            /\ (forall n, is_prefix p (n_path n) = true -> flag_locked (F n) = true).
+Proof.
+  intros hk s p base n0 F0. cbn [step]. rewrite F0. cbn [fix_memmap fix_lockgraph repo fst].
+  rewrite propagate_lock_eq, erase_touched_eq. cbn [nodes upd_nodes]. rewrite !map_map.
+  eexists. split; [reflexivity|]. cbn beta.
+  assert (K : forall n (b : bool),
+            n_path (if b then with_cache (mm_meta_f p (mm_lock_f p n)) [] else mm_meta_f p (mm_lock_f p n)) = n_path n).
+  { intros n b. unfold mm_meta_f, mm_lock_f. destruct b, (is_prefix p (n_path n)) eqn:P; cbn; rewrite ?P; reflexivity. }
+  split.
+  - intros n. rewrite (proj1 (plock_f_keeps _ _ _)). apply (K n).
+  - intros n P. rewrite plock_f_flag. rewrite (K n). now rewrite P.
+Qed.
+
+(* D62 repaired, in general: after memmap_() of node p — in any state that satisfies the invariant, whatever was locked
+   before — unlock_() of any node strictly below p is refused *)
+Theorem memmap_nested_unlock_refused : forall U hk s p base q,
+  Good U s -> is_node_path s p = true -> is_node_path s q = true -> proper_prefix p q = true ->
+  snd (step repo hk (fst (step repo hk s (OMemmap p base))) (OUnlock q)) = RaisedLock.
+Proof.
+  intros U hk s p base q G Hp Hq PP.
+  assert (G' := memmap_good U hk s p base G).
+  unfold is_node_path in Hp, Hq. destruct (find_node s p) as [n0|] eqn:F0; [|discriminate]. destruct (find_node s q) as [m0|] eqn:Fq; [|discriminate].
+  destruct (memmap_nodes hk s p base n0 F0) as [F [En [Kp Kl]]].
+  destruct (find_node_in s p n0 F0) as [Hn0 Pn0], (find_node_in s q m0 Fq) as [Hm0 Pm0].
+  cbn [step]. change (snd (unlock_ (fst (step repo hk s (OMemmap p base))) q) = RaisedLock).
+  apply (unlock_below_locked_refused U _ q (F m0) (F n0) G').
+  - rewrite En. now apply in_map.
+  - now rewrite Kp.
+  - rewrite En. now apply in_map.
+  - apply Kl. rewrite Pn0. apply is_prefix_refl.
+  - now rewrite Kp, Pn0.
+Qed.
+
 (* ---------------------------------------------------------------- every write permitted under lock *)
-(* the ops of the full statement; memmap_() on a tree belongs to the lock graph (D7) and stays outside *)
+(* the ops of the full statement; memmap_() of any node is among them now that it locks through the lock graph (D7 repaired) *)
 Definition permitted_op (U : list obj) (o : op) : Prop :=
   match o with
-  | OPromote _ _ | OMakeMemmap _ _ | OSetNames _ _ | OSetBatchSize _ _ => True
-  | OMemmap _ _ => False
+  | OPromote _ _ | OMakeMemmap _ _ | OSetNames _ _ | OSetBatchSize _ _ | OMemmap _ _ => True
   | o => clean_op U o
   end.
 
@@ -180,6 +300,8 @@ Proof.
     cbn [fix_rebind repo andb]. destruct (flag_locked n) eqn:L; cbn [fst].
     + eapply rebind_good; eauto; [discriminate|]. eapply no_node_at; eauto.
     + eapply (unlocked_rebind_good U s (x :: p) l n); eauto. eapply no_node_at; eauto.
+  - (* OMemmap *)
+    exact (memmap_good U hk s p base G).
   - (* OSetNames *)
     destruct (find_node s p) as [n|] eqn:F; [|exact G]. destruct (find_node_in s p n F) as [Hn _].
     destruct (g_td U s G n Hn) as [T _]. rewrite T. cbn [fix_meta repo fst].
